@@ -39,7 +39,7 @@ DELIMS_MONO = {"name": "delims_ok_mono", "vars": {"s": "Str", "m": "Int", "n": "
 # C01 "empty delimiters / missing comma are reported", C04 "blanks around commas and parentheses do not matter":
 # the scan reports something iff the text is not delimiter-well-formed, where well-formedness is defined on the non-blank characters only
 contract("C01.check_delimiter_issues_in_hed_string", file=SU, func="StringValidator.check_delimiter_issues_in_hed_string",
-         params={"self": "StringValidator", "hed_string": "Str"}, returns="List[Issue]", enc="array", prop="C01",
+         params={"self": "StringValidator", "hed_string": "Str"}, returns="List[Issue]", enc="array", prop="C01", also=["C04"],
          lemmas=[DELIMS_MONO],
          locals={"issues": "List[Issue]", "current_tag": "Str", "last_non_empty_valid_character": "Str"},
          ensures={
